@@ -54,6 +54,7 @@ pub struct WorldB {
     relayed: BTreeMap<(String, String), u128>,
     deadlines_h: Vec<u64>,
     deadlines_t: Vec<u64>,
+    queue: std::collections::VecDeque<Step>,
 }
 
 fn cm(v: &CosmosMsg) -> Value {
@@ -439,7 +440,8 @@ impl WorldB {
                         format!("UpdateAdmins by {} succeeded (mutable: {})", role, pre.mutable),
                     );
                 }
-                if post.admins != want || post.mutable != pre.mutable {
+                let as_set = |v: &Vec<String>| v.iter().cloned().collect::<std::collections::BTreeSet<String>>();
+                if as_set(&post.admins) != as_set(&want) || post.mutable != pre.mutable {
                     self.viol(out, "C17", "update-admins-result", json!({}), format!("admin list is {:?}, submitted {:?}", post.admins, want));
                 }
                 if committed {
@@ -859,6 +861,7 @@ impl World for WorldB {
             relayed: BTreeMap::new(),
             deadlines_h: vec![],
             deadlines_t: vec![],
+            queue: Default::default(),
         };
         w.meter.flag("instantiated");
         let mut pend = vec![];
@@ -913,6 +916,55 @@ impl World for WorldB {
             "C17" => [15, 18, 10, 35, 4, 18],
             _ => [30, 20, 8, 12, 12, 18],
         };
+        if let Some(s) = self.queue.pop_front() {
+            return s;
+        }
+        if rng.chance(1, 14) {
+            // F1: an admin's Decrease racing the subkey's spend, adjacent, in either order
+            let mut live: Vec<(String, Coin)> = vec![];
+            let mut admin: Option<String> = None;
+            if let Some(s) = self.last.get("sk") {
+                admin = s.admins.first().cloned();
+                for (i, u) in self.universe.iter().enumerate() {
+                    if self.users.contains(u) && !s.admins.contains(u) {
+                        if let Some(c) = s.allow.get(i).and_then(|a| a.0.first().cloned()) {
+                            live.push((u.clone(), c));
+                        }
+                    }
+                }
+            }
+            if let (Some(adm), false) = (admin, live.is_empty()) {
+                let (sub, c) = rng.pick(&live).clone();
+                let a = c.amount.u128();
+                let cut = *rng.pick(&[a, a / 2, a + 1, 1]);
+                let spend = *rng.pick(&[a, a / 2 + 1, a.saturating_sub(cut), a.saturating_sub(cut) + 1]);
+                let to = rng.pick(&self.universe).clone();
+                let admin_step = Step::Tx {
+                    sender: adm,
+                    target: "sk".into(),
+                    msg: json!({"decrease_allowance":{"spender": sub, "amount": {"denom": c.denom, "amount": cut.to_string()}, "expires": null}}),
+                    funds: vec![],
+                    fault: None,
+                    script: vec![],
+                };
+                let spend_step = Step::Tx {
+                    sender: sub.clone(),
+                    target: "sk".into(),
+                    msg: json!({"execute":{"msgs":[cm(&CosmosMsg::Bank(BankMsg::Send { to_address: to, amount: vec![Coin::new(spend, c.denom.clone())] }))]}}),
+                    funds: vec![],
+                    fault: None,
+                    script: vec![],
+                };
+                self.meter.hit("allowance_race_pair_scheduled");
+                if rng.chance(1, 2) {
+                    self.queue.push_back(spend_step);
+                    return admin_step;
+                } else {
+                    self.queue.push_back(admin_step);
+                    return spend_step;
+                }
+            }
+        }
         let label = if rng.chance(2, 3) { "sk" } else { "wl" };
         let k = rng.weighted(&weights);
         let fault = if self.cfg.faults && rng.chance(1, 10) {
